@@ -30,6 +30,7 @@ from funsor.terms import (
     Unary,
     Variable,
     _reduce_unrelated_vars,
+    substitute,
     to_funsor,
 )
 from funsor.typing import Variadic
@@ -564,7 +565,9 @@ def do_fresh_subs(arg, subs):
     if not subs:
         return arg
     if all(name in arg.fresh for name, sub in subs):
-        return arg.eager_subs(subs)
+        # go through substitute() rather than arg.eager_subs(): it renames
+        # apart names that are both substituted and mentioned by a value
+        return substitute(arg, subs)
     return None
 
 
